@@ -29,7 +29,7 @@ import lib
 import sched
 
 # ------------------------------------------------------------------------------------------------ programs
-# op syntax shared with the driver:  inc:o:a set:o:a get:o lab:k linc:k:a rem:k clr reg:c unreg:c col rcol:c rrcol:c  (+ oracle-only obs:s:a obs:h:a info:v state:k sti:v gti rcx:c rct stn linc2:k:a regy:i unregy:i)
+# op syntax shared with the driver:  inc:o:a set:o:a get:o lab:k linc:k:a rem:k clr reg:c unreg:c col rcol:c rrcol:c  (+ oracle-only obs:s:a obs:h:a info:v state:k sti:v gti rcx:c rct stn linc2:k:a regy:i unregy:i colr)
 # rcol:c  = registry.collect() over a collector that registers/unregisters x<c> and does a restricted lookup and a
 #           get_target_info from inside its collect();  rrcol:c = registry.restricted_registry(['e']).collect() over the same collector
 QUICK_PROGRAMS = [
@@ -73,6 +73,10 @@ QUICK_PROGRAMS = [
     # counter c, set:0:0 = Counter.reset(); object 1 = gauge g): the final value must be one a SERIAL order of the calls gives
     ('cv', 'inc:0:1|set:0:0', 1, True),
     ('Gv', 'inc:1:1|set:1:10', 1, True),
+    # a scraper still READING what collect() handed out while info() runs: world I = Info with two labels, pre-set in the
+    # set-up phase; colr = collect, keep the result, render it (pre-emption points inside the rendering)
+    ('I', 'info:A|colr', 1, False),
+    ('I', 'colr|info:A,info:B', 1, False),
 ]
 DEEP = {'linc:0:1|linc2:0:2', 'linc:0:1,linc:1:1|linc2:0:2,linc2:1:2'}
 THOROUGH_PROGRAMS = [
@@ -103,6 +107,8 @@ THOROUGH_PROGRAMS = [
     ('cv', 'inc:0:1|set:0:0|inc:0:2', 2, True),
     ('Gv', 'inc:1:1|set:1:10|inc:1:2', 2, True),
     ('Gv', 'inc:1:1,set:1:3|set:1:10,inc:1:2', 2, True),
+    ('I', 'info:A,info:B|colr,colr', 2, False),
+    ('I', 'colr|info:A|colr', 2, False),
 ]
 BACKENDS = ('mutex', 'mmap')
 
@@ -135,6 +141,7 @@ def pending_op(code, lasti):
     return m.get(lasti, '?')
 
 
+RENDER_RELEVANT = {'exposition.py'}        # for programs with `colr`: every function of the text exposition
 DEEP_RELEVANT = {'mmap_dict.py': {'__init__', '_init_value', 'read_value', 'write_value', '_read_all_values', 'close'}}
 
 
@@ -147,6 +154,16 @@ def relevant_point_deep(where):
     code, lasti = where
     base = os.path.basename(code.co_filename)
     return code.co_name in DEEP_RELEVANT.get(base, ()) and pending_op(code, lasti) not in LOCAL_OPS
+
+
+def relevant_point_render(where):
+    """as relevant_point, plus the non-local bytecodes of the text exposition (a scraper rendering what it collected)"""
+    if relevant_point(where):
+        return True
+    if where is None or isinstance(where, str):
+        return False
+    code, lasti = where
+    return os.path.basename(code.co_filename) in RENDER_RELEVANT and pending_op(code, lasti) not in LOCAL_OPS
 
 
 def relevant_point(where):
@@ -231,7 +248,10 @@ class World:
         self.p2 = Counter('p2', 'h', ['l'], registry=self.R) if '2' in flags else None
         self.s = Summary('s', 'h', registry=self.R) if 's' in flags else None
         self.h = Histogram('hh', 'h', buckets=(1.0, 2.0), registry=self.R) if 'h' in flags else None
-        self.I = Info('inf', 'h', registry=self.R) if 'i' in flags else None
+        self.I = Info('inf', 'h', registry=self.R) if ('i' in flags or 'I' in flags) else None
+        self.two_labels = 'I' in flags
+        if 'I' in flags:                 # set-up phase: the Info holds {v: 0, w: 0} before the threads start
+            self.I.info({'v': '0', 'w': '0'})
         self.N = Enum('en', 'h', states=['a', 'b', 'c'], registry=self.R) if 'n' in flags else None
         self.X = {i: XCollector(i) for i in range(1, 5)}
         self.Y = {i: XCollector(9) for i in range(1, 3)}      # two DIFFERENT collectors claiming the same name x9
@@ -331,6 +351,36 @@ def num(v):
     return str(int(v)) if float(v) == int(v) else repr(v)
 
 
+class FixedRegistry:
+    """hands generate_latest the families a collect() already returned"""
+
+    def __init__(self, fams):
+        self.fams = fams
+
+    def collect(self):
+        return self.fams
+
+
+def label_view(fams):
+    return [(f.name, [(s.name, dict(s.labels), s.value) for s in f.samples]) for f in fams]
+
+
+def collect_and_render(w):
+    """what a scraper does: collect, then — outside any lock — read what was handed out.  Returns the collect-time deep copy, the
+    label sets seen while rendering (library code: stepped one bytecode at a time), and keeps the family objects so that they
+    can be compared with the deep copy once every thread has finished"""
+    from prometheus_client.exposition import generate_latest
+    fams = list(w.R.collect())
+    snap = label_view(fams)                      # harness code: atomic
+    text = generate_latest(FixedRegistry(fams)).decode('utf-8')
+    seen = []
+    for line in text.split('\n'):
+        if line.startswith('inf_info'):
+            inside = line[line.index('{') + 1:line.rindex('}')] if '{' in line else ''
+            seen.append(dict(kv.split('=', 1) for kv in inside.split(',') if kv))
+    return {'snap': snap, 'rendered': seen, 'kept': fams, 'after': label_view(fams)}
+
+
 def make_thunk(w, tid, ops, log):
     """log: list receiving (tid, op index, op, tokens, extra)"""
     def run_op(idx, op):
@@ -406,8 +456,10 @@ def make_thunk(w, tid, ops, log):
             (w.s if f[1] == 's' else w.h).observe(float(f[2]))
             return [], None
         if k == 'info':
-            w.I.info({'v': f[1]})
+            w.I.info({'v': f[1], 'w': f[1]} if w.two_labels else {'v': f[1]})
             return [], None
+        if k == 'colr':
+            return [], {'render': collect_and_render(w)}
         if k == 'state':
             w.N.state(['a', 'b', 'c'][int(f[1])])
             return [], None
@@ -460,7 +512,15 @@ def run_once(backend, flags, program, policy):
             thunks = [make_thunk(w, tid, ops, log) for tid, ops in enumerate(threads)]
             res = ENGINE.run(thunks, SamplingPolicy(policy, w))
             w.sample()
-            obs = {'log': log, 'held': {k: list(v) for k, v in w.held.items()}, 'final': None, 'final_err': None, 'flags': flags}
+            changes = []
+            for e in log:
+                if e[4] is not None and 'render' in e[4]:
+                    r = e[4]['render']
+                    now = label_view(r.pop('kept'))
+                    if now != r['snap']:
+                        changes.append((e[0], e[1], [x for x in r['snap'] if x not in now][:2], [x for x in now if x not in r['snap']][:2]))
+            obs_changes = changes
+            obs = {'log': log, 'held': {k: list(v) for k, v in w.held.items()}, 'final': None, 'final_err': None, 'flags': flags, 'snapshot_changes': obs_changes}
             if res.ok or (all(res.done) and not res.deadlock and not res.stalled):
                 try:
                     obs['final'] = final_state(w)
@@ -650,6 +710,24 @@ def oracle(program, res, obs):
             regy.count('ok'), len(regy)))
     if obs['final']['dup_families']:
         return ('C02:two-collectors-one-name', 'the final collect exposes families twice: %r' % (obs['final']['dup_families'],))
+    # what collect() handed out is a VALUE: it does not change afterwards, and every label set a scraper reads from it is one
+    # some info() call installed (or the one of the set-up phase) — never empty, never a mixture
+    legal_info = [{'v': x, 'w': x} for x in ['0'] + [f[1] for f in ops if f[0] == 'info']]
+    for e in obs['log']:
+        if e[4] is not None and 'render' in e[4]:
+            r = e[4]['render']
+            for labels in r['rendered'] + [lab for (fn, ss) in r['after'] if fn == 'inf' for (_n, lab, _v) in ss]:
+                clean = {k: v.strip('"') for k, v in labels.items()}
+                if clean not in legal_info:
+                    return ('C02:phantom-value', 'a scraper reading the collected Info family saw the label set %r, which no info() '
+                            'call installed' % (clean,))
+            if r['after'] != r['snap']:
+                return ('C02:snapshot-changed', 'what collect() returned changed while the scraper was rendering it: %r -> %r' % (
+                    [x for x in r['snap'] if x not in r['after']][:1], [x for x in r['after'] if x not in r['snap']][:1]))
+    if obs.get('snapshot_changes'):
+        t, i, was, now = obs['snapshot_changes'][0]
+        return ('C02:snapshot-changed', 'the families thread %d collected (call %d) changed after collect() had returned: %r -> %r' % (
+            t, i, was, now))
     if obs['final']['children_mismatch']:
         return ('C02:stale-collect', 'after the threads joined: ' + '; '.join(obs['final']['children_mismatch']))
     for i, n_exposed, err in obs['final']['registered_y']:
@@ -791,7 +869,7 @@ def identity_and_collect_oracle(ops, dyn, obs):
     for tid, idx, op, toks, extra, t0, t1 in obs['log']:
         if extra is None:
             continue
-        if 'regy' in extra:
+        if 'regy' in extra or 'render' in extra:
             continue
         if 'restricted' in extra:
             want, got, bad = extra['restricted']
@@ -903,7 +981,8 @@ class ProgramSearch:
         self.wall = 0.0
         self.done = False
         self.ex = sched.explore(self._once, len(program.split('|')), bound,
-                                point_filter=relevant_point_deep if program in DEEP else relevant_point)
+                                point_filter=(relevant_point_deep if program in DEEP else
+                                              relevant_point_render if 'colr' in program else relevant_point))
 
     def _once(self, policy):
         res, obs = run_once(self.backend, self.flags, self.program, policy)
@@ -1005,7 +1084,7 @@ def run(ctx):
             ctx.broken.append('WellLocked no longer holds of the extracted skeleton(s): %s' % ', '.join(bad))
     # programs that never touch a value (registry / Info / Enum / target-info operations only) do not depend on the value
     # back-end: they run once
-    reg_only = {'reg', 'unreg', 'unregy', 'rcol', 'rrcol', 'rcx', 'rct', 'stn', 'sti', 'gti', 'regy', 'info', 'state', 'col'}
+    reg_only = {'reg', 'unreg', 'unregy', 'colr', 'rcol', 'rrcol', 'rcx', 'rct', 'stn', 'sti', 'gti', 'regy', 'info', 'state', 'col'}
 
     def backends_of(w, p):
         kinds = {op.split(':')[0] for t in p.split('|') for op in t.split(',')}
